@@ -465,7 +465,10 @@ class TrimWhitespaces(FullAstVisitor):
                 if not isinstance(arg, mparser.ArrayNode):
                     break
                 # The brackets go away: do not lose a comment attached to them
-                if any(b.whitespaces and b.whitespaces.value.strip() for b in (arg.lbracket, arg.rbracket, *node.args.commas)):
+                # (after an earlier pass the comment hangs on the array, on the
+                # comma behind it or on the argument list)
+                if any(b.whitespaces and b.whitespaces.value.strip()
+                       for b in (arg.lbracket, arg.rbracket, arg, node.args, *node.args.commas)):
                     break
                 # files([...]) -> files(...)
                 node.args = arg.args
